@@ -47,6 +47,37 @@ def worker_init():
 
     _BASE = scratch_dir("jtv_hook_")
     seams.install_router()
+    # warm-up: one hooked import and one plain import, so that every lazily initialised path of the hook (and of importlib)
+    # has run once before the first scenario -- yield counts of concurrent-import sections then do not depend on whether a
+    # scenario is the first one of its process
+    warm = os.path.join(_BASE, "warm")
+    os.makedirs(warm, exist_ok=True)
+    for nm in ("jtv_warm_a", "jtv_warm_b"):
+        with open(os.path.join(warm, nm + ".py"), "w") as f:
+            f.write("def f(x: int) -> int:\n    return x\n\nclass K:\n    def m(self, y: int) -> int:\n        return y\n")
+    sys.path.insert(0, warm)
+    importlib.invalidate_caches()
+    old_dwb = sys.dont_write_bytecode
+    try:
+        for dwb in (True, False):
+            sys.dont_write_bytecode = dwb
+            for nm in ("jtv_warm_a", "jtv_warm_b"):
+                sys.modules.pop(nm, None)
+            with jaxtyping.install_import_hook("jtv_warm_a", "sim.hsim_spy.a"):
+                importlib.import_module("jtv_warm_a")
+                importlib.import_module("jtv_warm_b")
+    finally:
+        sys.dont_write_bytecode = old_dwb
+        sys.path.remove(warm)
+        for nm in ("jtv_warm_a", "jtv_warm_b"):
+            sys.modules.pop(nm, None)
+        sys.path_importer_cache.pop(warm, None)
+        importlib.invalidate_caches()
+        hsim_spy.LOG.clear()
+        try:
+            _ih.Typechecker.lookup.clear()
+        except AttributeError:
+            pass
 
 
 def mod_file(root, name):
